@@ -10,7 +10,7 @@ from .c01 import lazy_rules, _guard, _priv, _pub, _Missing
 VOL = "mesh.datatypes.volume"
 CONN = "VolumeMesh._Connectivity"
 BCONN = "VolumeMesh._BoundaryConnectivity"
-BUILD = sx.Policy(never={"_compute_connectivity", "_compute_face_ids", "_sort_edge_neighborhoods", "_sort_vertex_neighborhoods"})
+BUILD = sx.Policy(never={"_compute_connectivity", "_compute_face_ids", "_sort_edge_neighborhoods", "_sort_vertex_neighborhoods"}, modules={"mesh.mesh_data"})
 MD = "mesh.mesh_data"
 BORDER = "processing.border"
 
@@ -85,7 +85,7 @@ _TABLE_ROLE = {"_generate_cell_faces": _appends_to("cell_faces", "_elem"), "_com
 def _tables_of(ctx, modname, cls, qual):
     """literal face tables reachable from a function (helpers and module-level constant tables followed): (fn, {norm: faces})"""
     fn = _priv(ctx, "C03-T1", modname, cls, qual, pred=_TABLE_ROLE[qual])
-    x = q.summarise(ctx.repo, modname, cls, fn, policy=sx.Policy(never={"_compute_connectivity", "_compute_face_ids", "_compute_cell_adj"}))
+    x = q.summarise(ctx.repo, modname, cls, fn, policy=sx.Policy(never={"_compute_connectivity", "_compute_face_ids", "_compute_cell_adj"}, modules={MD}))
     found = {}
     terms = [t for _, t in hr.all_terms(x)] + ([x.ret] if x.ret is not None else [])
     for t in terms:
@@ -820,20 +820,29 @@ def f1_face_completion(ctx):
     site = ctx.site(MD, fn)
     x = q.summarise(ctx.repo, MD, "RawMeshData", fn)
     apps = [e for e, b in q.method_calls(x, ("append",)) if q.field(b) == "faces" and len(e.args) == 1]
-    if len(apps) != 1:
-        ctx.undecided("C03-F1", site, "appending of the faces generated from the cells not recognised", f"{len(apps)} append(s) to self.faces")
+    if not apps:
+        ctx.undecided("C03-F1", site, "appending of the faces generated from the cells not recognised", "no append to self.faces")
         return
-    e = apps[0]
-    guard = None
-    for t, p in e.conds:
-        t, p = au.strip_not(t, p)
-        if isinstance(t, ast.Compare) and len(t.ops) == 1 and isinstance(t.ops[0], (ast.In, ast.NotIn)) and sx.is_special(t.comparators[0], "$obj"):
-            if (isinstance(t.ops[0], ast.NotIn)) == p:
-                guard = (t.left, t.comparators[0].id)
-    if guard is None:
+
+    def guard_of(e):
+        for t, p in e.conds:
+            t, p = au.strip_not(t, p)
+            if isinstance(t, ast.Compare) and len(t.ops) == 1 and isinstance(t.ops[0], (ast.In, ast.NotIn)) and sx.is_special(t.comparators[0], "$obj"):
+                if (isinstance(t.ops[0], ast.NotIn)) == p:
+                    return (t.left, t.comparators[0].id)
+        return None
+    guards = [guard_of(e) for e in apps]
+    if None in guards or len({g[1] for g in guards}) != 1:
         ctx.undecided("C03-F1", site, "the append of a generated face is not guarded by `key not in <set of known faces>`", "")
         return
-    key, sid = guard
+    sid = guards[0][1]
+    # the same obligation for every (unrolled) append; they are judged together
+    missing_add = [e for e, g in zip(apps, guards) if not any(
+        (m.kind == "call" and sx.is_special(m.base, "$obj") and m.base.id == sid and m.method == "add" and len(m.args) == 1 and q.same(m.args[0], g[0])
+         or m.kind == "setitem" and sx.is_special(m.base, "$obj") and m.base.id == sid and q.same(m.key, g[0])) and hr._ctx_key(m) == hr._ctx_key(e)
+        for m in x.effects)]
+    e = apps[0]
+    key = guards[0][0]
     shrink = [m for m in x.effects if m.kind == "call" and sx.is_special(m.base, "$obj") and m.base.id == sid
               and m.method in ("remove", "discard", "pop", "clear", "difference_update", "intersection_update")]
     adds = [m for m in x.effects if m.kind == "call" and sx.is_special(m.base, "$obj") and m.base.id == sid and m.method == "add" and len(m.args) == 1
@@ -852,7 +861,7 @@ def f1_face_completion(ctx):
     init_ok = isinstance(init, (ast.SetComp, ast.ListComp, ast.GeneratorExp, ast.DictComp)) and hasattr(init, "_frames") and len(init._frames) == 1 \
         and hr.seq_over(init._frames[0], "faces") and not init._conds
     init_ok = init_ok or (q._empty_container(init) and bool(seeded))
-    if not adds or not init_ok:
+    if not adds or missing_add or not init_ok:
         ctx.undecided("C03-F1", site, "the set of known face keys is not `keys of the listed faces, plus every face appended`", "")
     else:
         ctx.ok("C03-F1", site, "known-face set starts from the listed faces, grows with every appended face, never shrinks")
